@@ -3,8 +3,8 @@
    inside a Section are stated here in their closed form (the Section variables and
    hypotheses are the leading quantifiers / premises). *)
 From ReqV Require Import Lib.Bytes Model.H1Resp Model.H1Render Model.RespRender Model.StreamBody
-  Model.RespAPI Model.H1Client Model.MuxResp Model.H1Fast
-  Proofs.RespRenderProofs Proofs.H1RoundTrip Proofs.RespAPIProofs Proofs.MuxRespProofs Proofs.C02CrossProto Proofs.H1FastProofs Proofs.C02GenProofs.
+  Model.RespAPI Model.H1Client Model.MuxResp Model.H1Fast Model.ConnWindow
+  Proofs.RespRenderProofs Proofs.H1RoundTrip Proofs.RespAPIProofs Proofs.MuxRespProofs Proofs.C02CrossProto Proofs.H1FastProofs Proofs.C02GenProofs Proofs.ConnWindowProofs.
 From ReqV Require Gen.C02Consts.
 
 (* ---------- HTTP/1.1: parse (render x) = x ---------- *)
@@ -265,6 +265,30 @@ Theorem C02_h2_foreign_events : forall sid,
   (forall last, (sid <= last)%N -> foreign sid (CGoAway last)).
 Proof. exact (fun sid => conj (foreign_other_stream sid) (conj (foreign_ping sid) (foreign_graceful_goaway sid))). Qed.
 Print Assumptions C02_h2_foreign_events.
+
+(* The connection-level receive window as state carried across the exchanges of a connection.
+   For EVERY sequence of DATA frames (any padding), caller reads, early Closes with unread
+   bytes and dropped frames: window available to the peer + credit pending + bytes still
+   buffered unread = the initial window (no credit is ever lost) ... *)
+Theorem C02_conn_window_conserved : forall w ops s s' a,
+  cw_inv w s -> cw_run s ops = Some (s', a) -> cw_inv w s'.
+Proof. exact conn_window_conserved. Qed.
+Print Assumptions C02_conn_window_conserved.
+
+(* ... so at every quiescent point (every body read to its end or closed) the peer may again send
+   all but less than inflowMinRefresh bytes of the initial window: a later response is never
+   starved by what callers did with earlier ones *)
+Theorem C02_quiescent_window_restored : forall w ops s a,
+  (0 <= w)%Z -> cw_run (cw_init w) ops = Some (s, a) -> cw_buf s = 0%Z ->
+  quiescent_ok w (cw_avail s) = true /\ (w - cw_avail s = cw_unsent s)%Z.
+Proof. exact quiescent_window_restored. Qed.
+Print Assumptions C02_quiescent_window_restored.
+
+Theorem C02_close_unread_returns_credit : forall w n,
+  (min_refresh <= n <= w)%Z ->
+  cw_run (cw_init w) [CData n 0; CClose n] = Some ({| cw_avail := w; cw_unsent := 0; cw_buf := 0 |}, n).
+Proof. exact close_unread_returns_credit. Qed.
+Print Assumptions C02_close_unread_returns_credit.
 
 (* lower-case names on the wire, the same canonical multimap for the caller *)
 Theorem C02_h2_header_collect : forall fs,
@@ -529,6 +553,10 @@ Theorem C02_bounds_are_the_sources :
   Z.of_nat max_1xx = Gen.C02Consts.fork_max_1xx_h1 /\ Gen.C02Consts.fork_max_1xx_h2 = 5%Z /\
   Gen.C02Consts.fork_max_1xx_h3 = 5%Z /\ Z.of_nat br_size = Gen.C02Consts.fork_read_buffer.
 Proof. exact (conj success_state_agrees bounds_agree). Qed.
+
+Theorem C02_min_refresh_is_the_sources : min_refresh = Gen.C02Consts.fork_inflow_min_refresh.
+Proof. exact min_refresh_agrees. Qed.
+Print Assumptions C02_min_refresh_is_the_sources.
 Print Assumptions C02_bounds_are_the_sources.
 
 Example C02_nonvacuous :
